@@ -1,6 +1,6 @@
 #!/bin/bash
 # confirm.sh <PID> <mK>: confirm an agent's mutant in its own worktree: suite passes with it, demo fails with it, demo passes without.
-id=$1; mk=$2; wt=/tmp/wt/$id; out=/tmp/wtout/$id/$mk
+id=$1; mk=$2; wt=/tmp/wt/$id; out=${WTOUT:-/tmp/wtout}/$id/$mk
 cd $wt || exit 9
 git checkout -q -- . ; git clean -fdq -e target
 export CARGO_TARGET_DIR=$wt/target
